@@ -193,7 +193,72 @@ def build(active_known=frozenset()):
     c.ensures("the string read back is the original characters joined in order, and exactly the literal's text was consumed", read_post)
     c.replay(lambda m, ctx, ob: STR_REPLAY)
     c.replay_without_model = True
+    add_literals(pack)
     return pack
+
+
+NS_TOK, NAME_TOK = z3.Const("token_ns", V.Val), z3.Const("token_name", V.Val)
+
+
+def add_literals(pack):
+    """nil and the booleans: the printer's text for each (real functions run on the three values) and the reader's
+    reading of exactly those tokens (``_read_sym`` on the token the tokenizer hands it; the tokenizer itself,
+    ``_read_namespaced``, is not under contract)."""
+    from basilisp.lang import obj, reader as rd
+
+    for value, text, fn in ((None, "nil", "_lrepr_nil"), (True, "true", "_lrepr_bool"), (False, "false", "_lrepr_bool")):
+        c = pack.contract(f"basilisp.lang.obj:{fn}")
+        c.label = f"printing {text}"
+        pname = "_" if fn == "_lrepr_nil" else "o"
+        c.param_value(pname, lambda eng, st, value=value: value)
+        c.raises()
+        c.ensures(f"{value!r} prints as {text}", lambda a, text=text: a.result == V.mk_str(text))
+        c.replay(lambda m, ctx, ob: LIT_REPLAY)
+        c.replay_without_model = True
+
+    def ssetup(eng, st):
+        RC = rd.ReaderContext
+        eng.class_id(RC)
+        lid = eng.class_id(list)
+        eng.field_types[("ReaderContext", "_syntax_quoted")] = lambda v: (z3.And(V.is_ref(v), V.cls_of(V.Val.a(v)) == lid), list)
+
+        def namespaced(e, s, a, k):
+            s.assume(z3.Or(V.is_none(NS_TOK), V.is_str(NS_TOK)), V.is_str(NAME_TOK))
+            yield s, (SV(NS_TOK), SV(NAME_TOK))
+
+        eng.models[id(rd._read_namespaced)] = Model("_read_namespaced (the token's namespace and name)", namespaced)
+        eng.method_models[(RC, "syntax_error")] = Model("ReaderContext.syntax_error", lambda e, s, a, k: iter([(s, Exc(rd.SyntaxError, tuple(a[1:])))]))
+
+    c = pack.contract("basilisp.lang.reader:_read_sym")
+    c.label = "the tokens nil, true, false"
+    c.param("ctx", OBJ(rd.ReaderContext)).param("is_reader_macro_sym", T(lambda v: V.is_bool(v), None, "bool"))
+    c.setup(ssetup)
+    name = V.Val.s(NAME_TOK)
+    c.requires("the token is unqualified and spelled nil, true or false",
+               lambda a: z3.And(V.is_none(NS_TOK), z3.Or(name == z3.StringVal("nil"), name == z3.StringVal("true"), name == z3.StringVal("false"))))
+    c.raises()
+    c.ensures("nil reads as nil, true as true, false as false - inside and outside a syntax-quote",
+              lambda a: a.result == z3.If(name == z3.StringVal("nil"), V.VNone, V.mk_bool(name == z3.StringVal("true"))))
+    c.replay(lambda m, ctx, ob: LIT_REPLAY)
+    c.replay_without_model = True
+
+
+LIT_REPLAY = r'''
+from basilisp.lang import reader
+from basilisp.lang.obj import lrepr
+bad = []
+for v in (None, True, False):
+    t = lrepr(v)
+    back = list(reader.read_str(t))
+    if not (len(back) == 1 and back[0] is v):
+        bad.append("%r prints as %r which reads as %r" % (v, t, back))
+    q = list(reader.read_str("`" + t))
+    if not (len(q) == 1 and q[0] is v):
+        bad.append("%r inside a syntax-quote reads as %r" % (t, q))
+for line in bad[:10]:
+    print(line)
+print("REPRODUCED" if bad else "not reproduced")
+'''
 
 
 def table_check(active_known):
